@@ -307,6 +307,23 @@ PROPS["C13"] = mklib("C13", "lib13", GL.lib13_fixed(), GL.gen13, 150, 6000, GL.o
                      proj_name="C13: stamps (hashes as first-occurrence indices), verdicts, bytes read after stamp_reader, write results")
 
 
+# C16: add the file-resource stream (real files and directories, all three checkers and stamping routes) to the build
+# streams: "resource accesses ... independent of hash seeds, allocation addresses or earlier unrelated instances" also
+# covers the file checkers (directory listings, content hashes); every case is replayed in fresh processes.
+_c16b = PROPS["C16"]
+_g16 = lib_stream("lib13", GL.lib13_fixed(), GL.gen13, 120, 3000)
+
+
+def _gen16(rng, tier, seed, _b=_c16b["generate"]):
+    c1, s1 = _b(rng, tier, seed)
+    c2, s2 = _g16(rng, tier, seed)
+    return c1 + c2, dict(s1, **{"lib13_" + k: v for k, v in s2.items()})
+
+
+PROPS["C16"] = dict(_c16b, kinds=["build", "lib13"], generate=_gen16,
+                    proj=lambda c, l, _p=_c16b["proj"]: (l if c.kind == "lib13" else _p(c, l)),
+                    nontrivial=lambda c, io, _n=_c16b["nontrivial"]: (len(c.body) >= 3 if c.kind == "lib13" else _n(c, io)))
+
 # what is stated but not (yet) proved in Lean, per property: covered only by the correspondence and the oracle
 STATED_NOT_PROVED = {
     "C01": ["programs with writes are covered for STATIC roles (C01_full_*: WellFormedBody, WriteExact); role-changing programs with writes: no theorem (findings K3/K4)",
